@@ -788,6 +788,23 @@ func (m *Machine) Merge(r, other string) string {
 	m.Op("merge", r, other, func() string { tok = m.reg(m.O(r).Merge(m.O(other))); return tok })
 	return tok
 }
+// a nil interface as the argument
+func (m *Machine) MergeNil(r string) string {
+	var tok string
+	m.Op("mergenil", r, "", func() string { tok = m.reg(m.O(r).Merge(nil)); return tok })
+	return tok
+}
+func (m *Machine) ConcatNil(r string) string {
+	var tok string
+	m.Op("concatnil", r, "", func() string { tok = m.reg(m.L(r).Concat(nil)); return tok })
+	return tok
+}
+func (m *Machine) EqualsNil(r string) string {
+	if m.IsObj(r) {
+		return m.Op("oequalsnil", r, "", func() string { return btok(m.O(r).Equals(nil)) })
+	}
+	return m.Op("equalsnil", r, "", func() string { return btok(m.L(r).Equals(nil)) })
+}
 func (m *Machine) Pluck(r string, keys ...string) string {
 	var tok string
 	m.Op("pluck", r, keyToks(keys), func() string {
